@@ -64,7 +64,7 @@ def chunks(tier):
             out.append(("L", b["LMAX"], first, order))
     out += [("H", i, b["bfs_depth"]) for i in range(4)]
     out += [("U", i) for i in range(len(BOUND_SYSTEMS))] + [("A",)]
-    out += [("EQ", i) for i in EQ_POOL]
+    out += [("EQ", i) for i in EQ_POOL] + [("AI",), ("MR",)]
     out += [("CH", n, k) for n in (5, 6) for k in range(4)] + [("CC", k) for k in range(len(CONCAT_SYSTEMS))]
     return out
 
@@ -602,6 +602,75 @@ def run_chains(res, n, k):
 CONCAT_SYSTEMS = [((0, 3), "ABCD"), ((1, 2), "ABC"), ((12, 4), "ABDE"), ((0, 5, 7), "ABCEF"), ((3, 8, 1), "ABCD")]
 
 
+def run_add_iterables(res):
+    """rsys + <iterable of reactions> for every kind of iterable (list, tuple, iterator, generator, map, reversed, dict view): the
+    sum holds the system's reactions followed by the added ones, and the operand system is unchanged"""
+    kinds = [("list", list), ("tuple", tuple), ("iterator", iter), ("generator", lambda x: (y for y in x)), ("map", lambda x: map(lambda y: y, x)),
+             ("reversed-twice", lambda x: reversed(list(reversed(x)))), ("dict-values", lambda x: dict(enumerate(x)).values())]
+    for seq, subs in (((0, 3), tuple("ABCD")), ((2, 9), tuple("ABCEFG"))):
+        for add in ((1,), (4, 5), (6, 8, 13)):
+            for kname, mk in kinds:
+                res.states += 1
+                res.transitions += 1
+                res.evaluations += 1
+                res.nontrivial += 1
+                case = dict(layer="AI", seq=list(seq), add=list(add), kname=kname)
+                try:
+                    rx = {i: mk_rxn(i) for i in range(len(POOL))}
+                    rs = mk_sys(seq, subs, rx)
+                    tot = rs + mk([rx[i] for i in add])
+                    got = (ids_of(tot, rx), ids_of(rs, rx))
+                except Exception as e:
+                    got = "EXC %s" % type(e).__name__
+                exp = (tuple(seq) + tuple(add), tuple(seq))
+                res.outcomes["add-iterable-ok" if got == exp else "add-iterable-WRONG"] += 1
+                if got != exp:
+                    res.violation("C15|__add__|iterable-operand|%s" % kname, "system %r + <%s of reactions %r> holds %r (the operand afterwards %r); expected %r" % (
+                        list(seq), kname, list(add), got[0] if isinstance(got, tuple) else got, got[1] if isinstance(got, tuple) else None, exp), case, got, exp)
+    res.sample(dict(layer="AI", kinds=[k for k, _ in kinds]))
+
+
+def run_many_reactions(res, nblocks):
+    """systems of 3*nblocks reactions (up to 60): blocks of a catalysed step A_i + C -> B_i + C, the plain step A_i -> B_i and
+    its reverse B_i -> A_i.  Only the plain step and its reverse are forward/backward pairs; no A_i or B_i is only produced or
+    only consumed; the catalyst takes part in every block's first reaction with zero net effect"""
+    from chempy import Reaction, ReactionSystem, Substance
+
+    rxns, names = [], ["C"]
+    for i in range(nblocks):
+        a, b = "A%02d" % i, "B%02d" % i
+        names += [a, b]
+        rxns += [Reaction({a: 1, "C": 1}, {b: 1, "C": 1}, 2, checks=()), Reaction({a: 1}, {b: 1}, 3, checks=()), Reaction({b: 1}, {a: 1}, 5, checks=())]
+    case = dict(layer="MR", nblocks=nblocks)
+    res.states += 1
+    res.transitions += len(rxns)
+    res.evaluations += 3
+    res.nontrivial += 1
+    bad = []
+    try:
+        rs = ReactionSystem(rxns, OrderedDict((n, Substance(n)) for n in names), checks=())
+        got = [tuple(p) for p in rs.identify_equilibria()]
+        exp = [(3 * i + 1, 3 * i + 2) for i in range(nblocks)]
+        if got != exp:
+            bad.append(("identify_equilibria", got, exp))
+        cat = rs.categorize_substances(checks=())
+        expc = dict(accumulated=set(), depleted=set(), unaffected={"C"}, nonparticipating=set())
+        if cat != expc:
+            bad.append(("categorize_substances", cat, expc))
+        part = list(rs.substance_participation("C"))
+        if part != [3 * i for i in range(nblocks)]:
+            bad.append(("substance_participation", part, [3 * i for i in range(nblocks)]))
+        parts = rs.split(checks=())
+        if len(parts) != 1 or len(parts[0].rxns) != len(rxns):
+            bad.append(("split", [len(p.rxns) for p in parts], [len(rxns)]))
+    except Exception as e:
+        bad.append(("EXC", type(e).__name__, None))
+    res.outcomes["many-reactions-ok" if not bad else "many-reactions-WRONG"] += 1
+    for name, got, exp in bad:
+        res.violation("C15|%s|mismatch|many-reactions" % name, "%d-reaction system of catalysed / plain / reverse blocks: %s = %r, reaction graph says %r" % (len(rxns), name, got if not isinstance(got, list) or len(got) < 12 else got[:12], exp if not isinstance(exp, list) or len(exp) < 12 else exp[:12]),
+                      dict(case, query=name), repr(got)[:400], repr(exp)[:400])
+
+
 def run_concat(res, first):
     """ReactionSystem.concatenate over every ordered selection of 2-4 of five small systems that share stoichiometries:
     (sum, duplicates) against the definition (a reaction whose four stoichiometry dicts equal those of a reaction already
@@ -672,7 +741,13 @@ def run_equilibria(res, first):
 
 def run_chunk(chunk, tier):
     res = Result()
-    if chunk[0] == "EQ":
+    if chunk[0] == "AI":
+        run_add_iterables(res)
+    elif chunk[0] == "MR":
+        for nblocks in (3, 13, 14, 15, 20):
+            run_many_reactions(res, nblocks)
+        res.sample(dict(layer="MR", reactions=[9, 39, 42, 45, 60]))
+    elif chunk[0] == "EQ":
         run_equilibria(res, chunk[1])
     elif chunk[0] == "CH":
         run_chains(res, chunk[1], chunk[2])
@@ -707,6 +782,13 @@ def replay(case):
             new, mseq, msubs, rx = _build(case["start"], hist)
             check_queries(res, new, mseq, msubs, case)
             res.violations = [v for v in res.violations if v["case"].get("query") == case.get("query")] or res.violations
+    elif L == "AI":
+        sub = Result()
+        run_add_iterables(sub)
+        res.violations = [v for v in sub.violations if v["case"] == case]
+    elif L == "MR":
+        run_many_reactions(res, case["nblocks"])
+        res.violations = [v for v in res.violations if v["case"].get("query") == case.get("query")] or res.violations
     elif L == "EQ":
         sub = Result()
         run_equilibria(sub, case["sel"][0])
